@@ -200,18 +200,21 @@ def plan_seq(pid, tier, seed, ncpu):
 
 
 def plan_c15(pid, tier, seed, ncpu):
-    total = scale(tier, 160000, 4000000)
+    total = scale(tier, 1200000, 12000000)
 
     def jobs(bindirs, workdir, known):
         return seq_jobs(bindirs["dbg"], workdir, known, pid, "pure", total, 40, seed, ncpu, mode="pure", prefix="pure")
 
     fl = {"pairs_with_extra_call_on_lru_entry": 1000, "pairs_with_extra_call_on_candidate_before_insert": 1000,
-          "pairs_with_extra_call_within_1_tick_of_idle_deadline": 100, "pairs_sync": 1000, "pairs_unsync": 1000}
+          "pairs_with_extra_call_within_1_tick_of_idle_deadline": 100, "pairs_with_extra_call_while_excess_or_dead_entry_pending": 1000,
+          "pairs_sync": 1000, "pairs_unsync": 1000}
     return dict(variants=["dbg"], jobs=jobs, floors=fl,
                 rule="metamorphic pairs: a base history h (tti and tight capacities) and h' = h plus extra contains_key/iter calls at random positions, "
-                     "biased to the LRU entry, to entries within one tick of their idle deadline and to candidate keys right before their insert; after "
+                     "biased to the LRU entry, to entries within one tick of their idle deadline, to candidate keys right before their insert and to states with "
+                     "pending work (a size excess left by a grown update, or an entry past its deadline that is still held; scripted: read the entry whose "
+                     "time-to-live ends first, grow another one, advance to that deadline, then one operation that has to purge and evict); after "
                      "every base op both runs must agree on the op result, the popularity table (bit-identical), live entries with timestamps and the "
-                     "recency order (concurrent cache: the whole physical snapshot). Non-trivial: a pair in which an extra call hit one of the three "
+                     "recency order (concurrent cache: the whole physical snapshot). Non-trivial: a pair in which an extra call hit one of the "
                      "targets; distinct by fingerprint of (config, base ops, number of extras).",
                 assumptions=COMMON_ASSUMPTIONS + ["iter results are compared only when neither run has a size eviction pending (C04 allows that transient)"],
                 watchdog_s=scale(tier, 600, 3600))
